@@ -197,23 +197,9 @@ def rule_E2(run, prog, E):
         ap = [n for n in walk_no_nested(f.node) if isinstance(n, ast.Call) and call_name(n) == "_APPLY_DEPH"]
         if not ap or name == "_APPLY_DEPH":
             continue
-        bt = [n for n in walk_no_nested(f.node) if isinstance(n, ast.Call) and call_name(n) == "_BOOT_DEPH"]
-        pmf = parents_map(f.node)
-        good = True
-        for a in ap:
-            # a boot call must precede it in an enclosing statement list, outside the loops containing the apply
-            node = a
-            found = False
-            while node is not None and not found:
-                par = pmf.get(node)
-                for fld in ("body", "orelse"):
-                    b = getattr(par, fld, None)
-                    if isinstance(b, list) and node in b:
-                        for s in b[:b.index(node)]:
-                            if isinstance(s, ast.Expr) and isinstance(s.value, ast.Call) and s.value in bt:
-                                found = True
-                node = par
-            good = good and found
+        from ..fresh import dominated_by_call
+        # a boot call must precede every apply in an enclosing statement list (or run under the same condition)
+        good = all(dominated_by_call(f.node, a, "_BOOT_DEPH") for a in ap)
         run.obligation(rid, f.short, good, key="boot-before-apply",
                        message="pure-dephasing factors (expo, t0) must be recomputed by _BOOT_DEPH before the "
                                "time loop of every routine that applies them", loc=f.loc(),
